@@ -42,7 +42,7 @@ static ull known(ull q, ull h)
 }
 
 // ---------------------------------------------------------------- hash function with controlled bit patterns
-static int g_mode = 0; static ull g_param = 0; static ull g_hashCalls = 0;
+static int g_mode = 0; static ull g_param = 0; static ull g_hashCalls = 0; static std::vector<ull> g_table;
 static ull hashOf(ull key)
 {
 	const ull G = 0x9E3779B97F4A7C15ull;
@@ -56,10 +56,20 @@ static ull hashOf(ull key)
 	case 5: return ~(key << g_param);                          // ones below g_param, inverted key above
 	case 6: return (key * G) & ~(ull(0x7F) << 57);             // short hash 0
 	case 7: return (key & 0xFF) | ((key >> 8) * G << g_param); // few distinct low bytes, spread above g_param
+	case 9: return key < g_table.size() ? g_table[key] : 0;   // explicit table (tbl cases)
 	default: return key * G + g_param;
 	}
 }
 struct HF { size_t operator()(const uint64_t& k) const { ++g_hashCalls; return size_t(hashOf(k)); } };
+
+// HashTraitsStd clamps the start bucket count to >= 8; this shadows the getter so that tables of 1, 2, 4 buckets exist too
+template<class HashBucket> struct TraitsL : HashTraitsStd<uint64_t, HF, std::equal_to<uint64_t>, HashBucket>
+{
+	typedef HashTraitsStd<uint64_t, HF, std::equal_to<uint64_t>, HashBucket> Base;
+	size_t logStart;
+	explicit TraitsL(size_t ls = 0) : Base(), logStart(ls) {}
+	size_t GetLogStartBucketCount() const noexcept { return logStart; }
+};
 
 template<class Bucket> struct Spec;
 template<class T, size_t M> struct Spec<internal::BucketOpen2N2<T, M, true>> {
@@ -83,11 +93,11 @@ template<class T> struct Spec<internal::BucketOne<T, 1>> {
 
 template<class HashBucket> static void runSet(std::istringstream& is)
 {
-	typedef HashTraitsStd<uint64_t, HF, std::equal_to<uint64_t>, HashBucket> Traits;
+	typedef TraitsL<HashBucket> Traits;
 	typedef HashSet<uint64_t, Traits> Set;
 	typedef typename Set::Bucket Bucket;
 	ull startLog; is >> g_mode >> g_param >> startLog;
-	Set set{Traits(size_t(1) << startLog)};
+	Set set{Traits(size_t(startLog))};
 	std::vector<ull> keys; ull nextKey = 1;
 	ull grow = 0, notfound = 0, bitsbad = 0, fullbad = 0, fullSum = 0, reusedSum = 0, maxL = 0, crossed = 0, maxProbeSeen = 0;
 	std::string first;
@@ -283,6 +293,33 @@ int main()
 		else if (cmd == "short")
 		{
 			ull h; is >> h; printf("%u %u %llu %llu\n", unsigned(O2::pvCalcShortHash(size_t(h))), unsigned(P4::pvCalcShortHash(size_t(h))), ull(O2::pvGetProbeShift(size_t(h & 63))), ull(P4::pvGetProbeShift(size_t(h & 63))));
+		}
+		else if (cmd == "tbl")
+		{	// real HashSet<.., HashBucketOpen2N2<3>> with 2^L buckets, keys 1..n with the given hashes, Reserve to 2^newL, dump the layout
+			typedef TraitsL<HashBucketOpen2N2<>> Traits;
+			typedef HashSet<uint64_t, Traits> Set;
+			ull L, newL, h; is >> L >> newL; g_mode = 9; g_table.assign(1, 0); while (is >> h) g_table.push_back(h);
+			Set set{Traits(size_t(L))};
+			bool bad = false;
+			for (ull k = 1; k < g_table.size() && !bad; ++k) { set.Insert(k); if (set.mBuckets->GetLogCount() != L) bad = true; }
+			if (bad) { puts("grew-early"); continue; }
+			Traits t; set.Reserve(t.CalcCapacity(size_t(1) << newL, 3));
+			auto& bks = *set.mBuckets;
+			if (bks.GetLogCount() != newL || bks.GetNextBuckets() != nullptr) { puts("unexpected-size"); continue; }
+			std::string out;
+			for (size_t i = 0; i < bks.GetCount(); ++i)
+			{
+				auto& b = bks[i]; size_t c = b.pvGetCount();
+				if (b.mState[0] == 0 && b.mState[1] == 0) continue;
+				out += std::to_string(i) + ":" + std::to_string(b.mState[0]) + "," + std::to_string(b.mState[1]);
+				for (size_t j = 0; j < 3; ++j)
+				{
+					out += "|" + std::to_string(b.mHashData.shortHashes[j]);
+					if (j >= 3 - c) out += "," + std::to_string(b.mHashData.hashProbes[j]) + "," + std::to_string((&b.mItems)[j]);
+				}
+				out += ";";
+			}
+			puts(out.c_str());
 		}
 		else if (cmd == "set")
 		{
